@@ -791,15 +791,11 @@ impl SvgElement {
                 width = Some(0.);
                 height = Some(0.);
             }
-            "circle" => {
-                if let Some(r) = self.attrs.get("r").map(|n| strp(n)).transpose()? {
-                    width = Some(r * 2.0);
-                    height = Some(r * 2.0);
-                }
-            }
-            "ellipse" => {
-                let rx = self.attrs.get("rx").map(|n| strp(n)).transpose()?;
-                let ry = self.attrs.get("ry").map(|n| strp(n)).transpose()?;
+            "circle" | "ellipse" => {
+                // as `Position` reads them: `r` stands for both radii, `rx` / `ry` for one each
+                let r = self.attrs.get("r").map(|n| strp(n)).transpose()?;
+                let rx = self.attrs.get("rx").map(|n| strp(n)).transpose()?.or(r);
+                let ry = self.attrs.get("ry").map(|n| strp(n)).transpose()?.or(r);
                 if let Some(rx) = rx {
                     width = Some(rx * 2.0);
                 }
